@@ -502,6 +502,8 @@ class Parser:
             return ast.literal_eval(token.string)
         except SyntaxError as e:  # report the error at the literal's place in the source
             self.raise_syntax_error_known_location(e.msg, token)
+        except ValueError as e:  # e.g. a lone surrogate in a string literal cannot be encoded
+            self.raise_syntax_error_known_location(str(e), token)
 
     def _concat_strings_in_constant(self, parts: list[TokenInfo]) -> ast.Constant:
         s = self._literal_eval(parts[0])
